@@ -143,3 +143,14 @@ Definition router_match_rt (rt : N -> option str) (m : rmap) (a : adapter) (path
       end
   | o => o
   end.
+
+(* ------------------------------------------------------------------ Rule(build_only=True)
+   Map.add does not hand a build_only rule to the matcher, Rule.provides_defaults_for is False for it, but it stays in
+   Map._rules_by_endpoint: MapAdapter.build - and with it the alias redirect - sees it.  bo: the indices of the
+   build_only rules of the map mall (all rules, in insertion order). *)
+Definition matchable (bo : N -> bool) (mall : rmap) : rmap :=
+  {| m_rules := filter (fun r => negb (bo (r_idx r))) (m_rules mall); m_strict := m_strict mall; m_merge := m_merge mall;
+     m_redirect_defaults := m_redirect_defaults mall; m_host_matching := m_host_matching mall |}.
+Definition router_match_bo (bo : N -> bool) (mall : rmap) (a : adapter) (path_info meth : str) : outcome :=
+  map_match {| h_alias := fun _ a' me r v => alias_redirect_url mall a' me r v; h_default := get_default_redirect |}
+    (matchable bo mall) a path_info meth.
